@@ -65,6 +65,24 @@ def ledger():
     return {}
 
 
+MAX_CONCRETISE = 3
+
+
+def native_counterexample(function, variant, obligation):
+    """small-scope concretisation of a refuted obligation + run of the real function (sedvc/concretize.py)"""
+    try:
+        from sedvc import concretize
+        cex = concretize.small_counterexample(function, variant, obligation, repo_root=REPO, timeout_ms=30000)
+        if cex is None:
+            return None
+        rep = concretize.replay_native(cex)
+        if not rep.get('agrees'):
+            return None
+        return dict(cex=cex, replay=rep)
+    except Exception:
+        return None
+
+
 def write_replay(prop, name, payload):
     d = os.path.join(HERE, 'replays')
     os.makedirs(d, exist_ok=True)
@@ -101,6 +119,7 @@ def main(argv):
         e1 = None
         crashes.append('E1 driver: ' + traceback.format_exc()[-1500:])
     obligations = discharged = 0
+    n_concretised = [0]
     functions = []
     solver_s = 0.0
     samples = []
@@ -132,11 +151,32 @@ def main(argv):
                 elif o['status'] == 'refuted':
                     payload = dict(property=prop, kind='E1-obligation', obligation=o['name'], function=fname,
                                    verifier_output=o['detail'], counter_model=o['model'],
-                                   note='obligation generated from %s and refuted by z3; see DESIGN.md 6.2' % REPO)
+                                   note='obligation generated from %s and refuted by z3; see DESIGN.md 6' % REPO)
+                    msg = 'obligation %s refuted' % o['name']
+                    has_input = False
+                    if n_concretised[0] < MAX_CONCRETISE and time.time() - t0 < 600:
+                        n_concretised[0] += 1
+                        nat = native_counterexample(r['function'], r.get('variant'), o['name'])
+                        if nat is not None:
+                            payload.update(kind='E1-native', counterexample=nat['cex'], native_replay=nat['replay'])
+                            has_input = True
+                            msg += '; the real function, run on the small counterexample of the verifier, returns the values the verifier predicted (%s)' % nat['replay']['detail']
                     path = write_replay(prop, o['name'], payload)
-                    violations.append(('E1:' + o['name'], 'obligation %s refuted' % o['name'], path, False))
+                    violations.append(('E1:' + o['name'], msg, path, has_input))
                 else:
-                    undecided.append('%s: %s' % (o['name'], o['detail']))
+                    # undecided at symbolic size: a small concrete counterexample confirmed by the real code still decides it
+                    nat = None
+                    if n_concretised[0] < MAX_CONCRETISE and time.time() - t0 < 600 and 'out of date' not in str(o['detail']):
+                        n_concretised[0] += 1
+                        nat = native_counterexample(r['function'], r.get('variant'), o['name'])
+                    if nat is not None:
+                        payload = dict(property=prop, kind='E1-native', obligation=o['name'], function=fname, verifier_output='undecided for symbolic lengths (%s); refuted for the lengths %s'
+                                       % (o['detail'], nat['cex']['sizes']), counterexample=nat['cex'], native_replay=nat['replay'])
+                        path = write_replay(prop, o['name'], payload)
+                        violations.append(('E1:' + o['name'], 'obligation %s refuted for small array lengths; the real function, run on that counterexample, returns the values the verifier predicted (%s)'
+                                           % (o['name'], nat['replay']['detail']), path, True))
+                    else:
+                        undecided.append('%s: %s' % (o['name'], o['detail']))
         missing = [n for n in led.get('obligations', []) if n not in seen_names]
         # obligations that vanish (on a tree where the function still verifies) would make a pass vacuous
         for n in missing:
@@ -165,10 +205,9 @@ def main(argv):
             print("KNOWN-FINDING: property=%s %s" % (prop, known[0]['text']))
         else:
             new_violations.append((key, msg, path, has_input))
-    # an E1 violation gets a native failing input when E2 found one for the same run
-    any_input = any(h for _, _, _, h in new_violations)
     for key, msg, path, has_input in new_violations:
-        tail = '' if (has_input or any_input) else ' no-failing-input-found'
+        # a violation line without a native failing input of its own says so
+        tail = '' if has_input else ' no-failing-input-found'
         print("VIOLATION property=%s replay=%s%s" % (prop, path, tail))
         print("  %s: %s" % (key, msg))
     for u in undecided:
@@ -251,6 +290,15 @@ def replay(prop, path):
                 print("  %s: %s" % (v.key, v.message))
             return 1
         print("replay passed: the case no longer violates the property")
+        return 0
+    if payload.get('kind') == 'E1-native':
+        from sedvc import concretize
+        rep = concretize.replay_native(payload['counterexample'])
+        if rep.get('agrees'):
+            print("VIOLATION property=%s replay=%s" % (prop, path))
+            print("  obligation %s: the real function still returns, on the recorded input, the values for which the clause is false (%s)" % (payload['obligation'], rep['detail']))
+            return 1
+        print("replay passed: on the recorded input the real function no longer returns the violating values (%s)" % rep.get('detail'))
         return 0
     if payload.get('kind') == 'E1-obligation':
         from sedvc import engine
